@@ -168,8 +168,8 @@ theorem onTable_inv (m m' : Migration) (site : String) (id : Nat) (f : Table →
     · exact h.each x h1
     · rw [h1]; exact hi
 
-theorem addColumn_inv (m m' : Migration) (tb : String) (col : Column) (mysql : Bool) (h : m.Inv)
-    (hs : m.addColumn tb col mysql = .ok m') : m'.Inv := by
+theorem addColumn_inv (m m' : Migration) (tb : String) (col : Column) (mysql : Bool) {pg : Bool} (h : m.Inv)
+    (hs : m.addColumn tb col mysql pg = .ok m') : m'.Inv := by
   unfold addColumn at hs
   obtain ⟨⟨m1, id⟩, h1, hs⟩ := bind_ok hs
   exact onTable_inv m1 m' _ id _ (ensureTable_inv m m1 _ id h h1)
